@@ -16,7 +16,11 @@ def main():
     ap.add_argument("--replay")
     a = ap.parse_args()
     seed = int(os.environ.get("VERIF_SEED", "0") or 0)
-    sys.exit(common.run_check(a.prop, a.tier, seed, a.replay))
+    rc = common.run_check(a.prop, a.tier, seed, a.replay)
+    # leave without joining threads: a mutated implementation may have left worker threads dead-locked
+    sys.stdout.flush()
+    sys.stderr.flush()
+    os._exit(rc)
 
 
 if __name__ == "__main__":
